@@ -23,6 +23,7 @@ def _db(name):
     return Database(getattr(ds, name))
 
 
+CUTI_PHASES = ['CU4TI', 'CU3TI2']
 ALMGSI_PHASES = ['MGSI_B_P', 'MG5SI6_B_DP', 'B_PRIME_L', 'U1_PHASE', 'U2_PHASE']
 ALMGSI_GAMMA = {'MGSI_B_P': 0.18, 'MG5SI6_B_DP': 0.084, 'B_PRIME_L': 0.18, 'U1_PHASE': 0.18, 'U2_PHASE': 0.18}
 
@@ -34,6 +35,14 @@ def make_therm(system, prec_phases=None, solutes=None, df_method='tangent', samp
     if system == 'alzr':
         th = BinaryThermodynamics(_db('ALZR_TDB'), ['AL', 'ZR'], ['FCC_A1', 'AL3ZR'], drivingForceMethod=df_method)
         th.setDiffusivity(lambda T: 0.0768 * np.exp(-242000 / (8.314 * T)), 'FCC_A1')
+    elif system == 'cuti':
+        # binary system with TWO precipitate phases (examples/CuTi.tdb is shipped with the repository; mobility based)
+        import os
+        from pycalphad import Database
+        from vlib.core import REPO
+        ph = list(prec_phases) if prec_phases else CUTI_PHASES
+        th = BinaryThermodynamics(Database(os.path.join(REPO, 'examples', 'CuTi.tdb')), ['CU', 'TI'], ['FCC_A1'] + ph, drivingForceMethod=df_method)
+        th.setMobilityCorrection('all', 100)
     elif system == 'nialcr':
         sol = list(solutes) if solutes else ['AL', 'CR']
         th = MulticomponentThermodynamics(_db('NICRAL_TDB'), ['NI'] + sol, ['FCC_A1', 'FCC_L12'], drivingForceMethod=df_method)
@@ -100,6 +109,12 @@ def default_cfg(system):
                 'schedule': {'kind': 'iso', 'T': 723.15}, 'gamma': {'AL3ZR': 0.1},
                 'VmAlpha': 1.0e-5, 'VmBeta': {'AL3ZR': 1.0e-5}, 'site': {'AL3ZR': 'dislocations'},
                 'dislocationDensity': 1e15, 'grainSize': 1.0, 'pbm': {'cMin': 1e-10, 'cMax': 1e-8, 'bins': 75, 'minBins': 50, 'maxBins': 100, 'adaptive': True}}
+    if system == 'cuti':
+        ph = list(CUTI_PHASES)
+        return {'system': 'cuti', 'phases': ph, 'solutes': ['TI'], 'x0': [0.019],
+                'schedule': {'kind': 'iso', 'T': 623.15}, 'gamma': {'CU4TI': 0.035, 'CU3TI2': 0.07},
+                'VmAlpha': 7.11e-6, 'VmBeta': {p: 7.6e-6 for p in ph}, 'site': {p: 'bulk' for p in ph}, 'bulkN0': 1e30,
+                'pbm': {'cMin': 1e-10, 'cMax': 1e-8, 'bins': 75, 'minBins': 50, 'maxBins': 100, 'adaptive': True}}
     if system == 'nialcr':
         return {'system': 'nialcr', 'phases': ['FCC_L12'], 'solutes': ['AL', 'CR'], 'x0': [0.098, 0.083],
                 'schedule': {'kind': 'iso', 'T': 1073.0}, 'gamma': {'FCC_L12': 0.023},
